@@ -102,7 +102,11 @@ impl Coor32 {
     /// Multiply by a scalar
     #[must_use]
     pub fn scale(&self, factor: f64) -> Coor32 {
-        Coor32([self[0] * factor as f32, self[1] * factor as f32])
+        // (the product, not the factor, is what gets rounded to 32 bits)
+        Coor32([
+            (self[0] as f64 * factor) as f32,
+            (self[1] as f64 * factor) as f32,
+        ])
     }
 
     /// Scalar product
